@@ -12,6 +12,21 @@ fn main() {
         usage();
     }
     match args[0].as_str() {
+        "dyn" => {
+            // qxv dyn <script.json | choices as comma list> <xml> : debug aid for the scripted targets
+            let xml = args.get(2).cloned().unwrap_or_default();
+            let script: qxv::dynde::Script = match std::fs::read_to_string(&args[1]) {
+                Ok(t) => serde_json::from_str(&t).expect("script json"),
+                Err(_) => {
+                    let ch: Vec<u8> = args[1].split(',').filter_map(|x| x.trim().parse().ok()).collect();
+                    qxv::dynde::script_from_doc(args.get(3).map(|s| s.as_str()).unwrap_or(&xml), &ch)
+                }
+            };
+            println!("script: {:?}", script);
+            qxv::dynde::set_budget(100000);
+            println!("from_str: {:?}", qxv::dynde::from_str(&script, &xml));
+            println!("steps: {}", qxv::dynde::steps());
+        }
         "list" => {
             for p in props::all() {
                 println!("{} {}", p.id, p.variants.join(","));
